@@ -232,7 +232,7 @@ macro_rules! eq_str {
 }
 
 harnesses! {
-    fn c02_q_kmer_eq_str_dna_k2 [6] {
+    fn c02_q_kmer_eq_str_dna_k2 [10] {
         // Kmer == &str goes through Display (text formatting)
         let v = any_usize();
         assume(v < 16);
@@ -244,37 +244,37 @@ harnesses! {
         reach!(want, "equal");
         assert!((k == txt) == want, "C02.eq.kmer_vs_str");
     }
-    fn c02_q_eq_str_dna [5] { eq_str!(Dna, oracle::DNA, 64, 3) }
-    fn c02_q_eq_str_amino [5] { eq_str!(Amino, oracle::AMINO, 21, 2) }
-    fn c02_t_eq_str_iupac [5] { eq_str!(Iupac, oracle::IUPAC, 32, 3) }
-    fn c02_q_eq_sym_dna [4] { eq1::<Dna, 64, 2>(8); }
-    fn c02_q_eq_sym_amino [3] { eq1::<Amino, 21, 2>(3); }
-    fn c02_q_eq_sym_miupac [3] { eq1::<masked::Iupac, 25, 2>(3); }
-    fn c02_t_eq_sym_iupac [3] { eq1::<Iupac, 32, 2>(4); }
-    fn c02_t_eq_sym_text [3] { eq1::<text::Dna, 16, 2>(2); }
-    fn c02_t_eq_sym_dna_3w [4] { eq1::<Dna, 96, 3>(8); }
+    fn c02_q_eq_str_dna [10] { eq_str!(Dna, oracle::DNA, 64, 3) }
+    fn c02_q_eq_str_amino [10] { eq_str!(Amino, oracle::AMINO, 21, 2) }
+    fn c02_t_eq_str_iupac [10] { eq_str!(Iupac, oracle::IUPAC, 32, 3) }
+    fn c02_q_eq_sym_dna [10] { eq1::<Dna, 64, 2>(8); }
+    fn c02_q_eq_sym_amino [10] { eq1::<Amino, 21, 2>(3); }
+    fn c02_q_eq_sym_miupac [10] { eq1::<masked::Iupac, 25, 2>(3); }
+    fn c02_t_eq_sym_iupac [10] { eq1::<Iupac, 32, 2>(4); }
+    fn c02_t_eq_sym_text [10] { eq1::<text::Dna, 16, 2>(2); }
+    fn c02_t_eq_sym_dna_3w [10] { eq1::<Dna, 96, 3>(8); }
 
 
 
-    fn c02_q_eq_forms_dna_0_8_1_8 [4] { eq_forms::<Dna, 64, 2>(0, 8, 1, 8); }
-    fn c02_q_eq_forms_dna_29_8_3_8 [4] { eq_forms::<Dna, 64, 2>(29, 8, 3, 8); }
-    fn c02_q_eq_forms_dna_31_33_0_33 [4] { eq_forms::<Dna, 96, 3>(31, 33, 0, 33); }
-    fn c02_q_eq_forms_dna_0_4_1_3 [4] { eq_forms::<Dna, 64, 2>(0, 4, 1, 3); }
-    fn c02_q_eq_forms_dna_empty [4] { eq_forms::<Dna, 64, 2>(5, 0, 9, 0); }
-    fn c02_q_eq_forms_amino_9_3_0_3 [4] { eq_forms::<Amino, 21, 2>(9, 3, 0, 3); }
-    fn c02_q_eq_forms_amino_10_2_1_2 [4] { eq_forms::<Amino, 21, 2>(10, 2, 1, 2); }
-    fn c02_q_eq_forms_miupac_12_3_1_3 [4] { eq_forms::<masked::Iupac, 25, 2>(12, 3, 1, 3); }
-    fn c02_t_eq_forms_iupac_15_2_2_2 [4] { eq_forms::<Iupac, 32, 2>(15, 2, 2, 2); }
-    fn c02_t_eq_forms_text_7_3_0_3 [4] { eq_forms::<text::Dna, 16, 2>(7, 3, 0, 3); }
-    fn c02_t_eq_forms_dna_31_8_32_8 [4] { eq_forms::<Dna, 64, 2>(31, 8, 32, 8); }
-    fn c02_t_eq_forms_dna_1_1_63_1 [4] { eq_forms::<Dna, 64, 2>(1, 1, 63, 1); }
+    fn c02_q_eq_forms_dna_0_8_1_8 [10] { eq_forms::<Dna, 64, 2>(0, 8, 1, 8); }
+    fn c02_q_eq_forms_dna_29_8_3_8 [10] { eq_forms::<Dna, 64, 2>(29, 8, 3, 8); }
+    fn c02_q_eq_forms_dna_31_33_0_33 [10] { eq_forms::<Dna, 96, 3>(31, 33, 0, 33); }
+    fn c02_q_eq_forms_dna_0_4_1_3 [10] { eq_forms::<Dna, 64, 2>(0, 4, 1, 3); }
+    fn c02_q_eq_forms_dna_empty [10] { eq_forms::<Dna, 64, 2>(5, 0, 9, 0); }
+    fn c02_q_eq_forms_amino_9_3_0_3 [10] { eq_forms::<Amino, 21, 2>(9, 3, 0, 3); }
+    fn c02_q_eq_forms_amino_10_2_1_2 [10] { eq_forms::<Amino, 21, 2>(10, 2, 1, 2); }
+    fn c02_q_eq_forms_miupac_12_3_1_3 [10] { eq_forms::<masked::Iupac, 25, 2>(12, 3, 1, 3); }
+    fn c02_t_eq_forms_iupac_15_2_2_2 [10] { eq_forms::<Iupac, 32, 2>(15, 2, 2, 2); }
+    fn c02_t_eq_forms_text_7_3_0_3 [10] { eq_forms::<text::Dna, 16, 2>(7, 3, 0, 3); }
+    fn c02_t_eq_forms_dna_31_8_32_8 [10] { eq_forms::<Dna, 64, 2>(31, 8, 32, 8); }
+    fn c02_t_eq_forms_dna_1_1_63_1 [10] { eq_forms::<Dna, 64, 2>(1, 1, 63, 1); }
 
-    fn c02_q_eq_owned_dna_o1_n3_y5 [4] { eq_owned!(Dna, 64, 1, 3, 5, 3) }
-    fn c02_q_eq_owned_dna_o1_n3_y5_m2 [4] { eq_owned!(Dna, 64, 1, 3, 5, 2) }
-    fn c02_t_eq_owned_dna_o31_n2_y0 [4] { eq_owned!(Dna, 64, 31, 2, 0, 2) }
-    fn c02_t_eq_owned_amino_o10_n2_y0 [4] { eq_owned!(Amino, 21, 10, 2, 0, 2) }
+    fn c02_q_eq_owned_dna_o1_n3_y5 [10] { eq_owned!(Dna, 64, 1, 3, 5, 3) }
+    fn c02_q_eq_owned_dna_o1_n3_y5_m2 [10] { eq_owned!(Dna, 64, 1, 3, 5, 2) }
+    fn c02_t_eq_owned_dna_o31_n2_y0 [10] { eq_owned!(Dna, 64, 31, 2, 0, 2) }
+    fn c02_t_eq_owned_amino_o10_n2_y0 [10] { eq_owned!(Amino, 21, 10, 2, 0, 2) }
 
-    fn c02_q_eq_seq_seq_after_truncate [5] {
+    fn c02_q_eq_seq_seq_after_truncate [10] {
         // owned == owned, one side shortened in place (its storage word keeps stale bits past the end)
         let w = any_words::<2>();
         let src = arr::<Dna, 64, 2>(w);
@@ -318,10 +318,10 @@ harnesses! {
     fn c02_t_hash_kmer_dna_k64_u128 [131] { hash_kmer!(Dna, 64, u128, 192, 6) }
     fn c02_t_hash_kmer_dna_k32 [67] { hash_kmer!(Dna, 32, usize, 96, 3) }
 
-    fn c02_q_eq_kmer_dna_k4 [8] { eq_kmer!(Dna, 4, usize, 64, 2) }
-    fn c02_q_eq_kmer_dna_k32 [8] { eq_kmer!(Dna, 32, usize, 96, 3) }
-    fn c02_q_eq_kmer_amino_k10 [8] { eq_kmer!(Amino, 10, usize, 32, 3) }
-    fn c02_q_eq_kmer_dna_k33_u128 [8] { eq_kmer!(Dna, 33, u128, 96, 3) }
-    fn c02_t_eq_kmer_dna_k32_u64 [8] { eq_kmer!(Dna, 32, u64, 96, 3) }
-    fn c02_t_eq_kmer_iupac_k16 [8] { eq_kmer!(Iupac, 16, usize, 48, 3) }
+    fn c02_q_eq_kmer_dna_k4 [10] { eq_kmer!(Dna, 4, usize, 64, 2) }
+    fn c02_q_eq_kmer_dna_k32 [10] { eq_kmer!(Dna, 32, usize, 96, 3) }
+    fn c02_q_eq_kmer_amino_k10 [10] { eq_kmer!(Amino, 10, usize, 32, 3) }
+    fn c02_q_eq_kmer_dna_k33_u128 [10] { eq_kmer!(Dna, 33, u128, 96, 3) }
+    fn c02_t_eq_kmer_dna_k32_u64 [10] { eq_kmer!(Dna, 32, u64, 96, 3) }
+    fn c02_t_eq_kmer_iupac_k16 [10] { eq_kmer!(Iupac, 16, usize, 48, 3) }
 }
